@@ -223,6 +223,22 @@ def run(ctx):
 def replay(case):
     from pylatexenc.latexencode import UnicodeToLatexEncoder
     c = case['case']
+    if 'history' in c:
+        from pylatexenc import latexencode
+        if hasattr(latexencode, '_u2l_obj_cache'):
+            latexencode._u2l_obj_cache.clear()
+        tab = c04_extra.table('defaults')
+        ok = True
+        for k, o in enumerate(c['history'][:c.get('step', len(c['history']))]):
+            opt = dict(nao=o['nao'], scheme=o['scheme'], policy=o['policy'])
+            for s in c04_extra.C13_HELPER_STRINGS:
+                status, val = c04_extra.helper_call(opt, s)
+                exp = c04_extra.port_encode(s, tab, opt['scheme'], opt['policy'], opt['nao'])
+                bad = (opt['policy'] == 'fail' and (exp is None) != (status == 'ValueError')) or \
+                      (opt['policy'] in ('replace', 'ignore', 'unihex') and status == 'ok' and any(ord(ch) > 127 for ch in val))
+                print('call %d' % (k + 1), opt, repr(s), '->', status, repr(val), '  <-- violates C13' if bad else '')
+                ok = ok and not bad
+        return ok
     enc = UnicodeToLatexEncoder(conversion_rules=[c['table']], replacement_latex_protection=c['scheme'],
                                 unknown_char_policy=c.get('policy', 'keep'), unknown_char_warning=False)
     st, val = guarded(enc.unicode_to_latex, c['s'])
